@@ -419,6 +419,134 @@ func runC02(c *Ctx) {
 		rec.Sample("sign-decoded", map[string]any{"wire": hexs(b), "tbs0": hexs(wm.TBS(0, ext, payload))})
 	})
 
+	// ---- (d) very large payload / external data with every head width of the protected bstr ----
+	// (sizes where an implementation might switch to a streaming or chunked construction)
+	bigSizes := []int{1 << 20, 4<<20 - 1, 4 << 20, 4<<20 + 1}
+	if c.Thorough {
+		bigSizes = append(bigSizes, 8<<20, 16<<20+1, 32<<20)
+	}
+	type bigJob struct {
+		size, width int
+		where       string // which field is large
+		structure   string
+	}
+	var bigJobs []bigJob
+	for _, sz := range bigSizes {
+		for _, wd := range gen.HeadWidths {
+			for _, where := range []string{"payload", "external"} {
+				for _, st := range []string{"sign1", "sign"} {
+					bigJobs = append(bigJobs, bigJob{sz, wd, where, st})
+				}
+			}
+		}
+	}
+	bigWorkers := c.Workers
+	if bigWorkers > 4 {
+		bigWorkers = 4 // each job holds several copies of the large field
+	}
+	mon.Parallel(bigWorkers, len(bigJobs), func(w, i int) {
+		j := bigJobs[i]
+		r := mon.NewRand(uint64(c.Seed)).Sub(uint64(6000000 + i))
+		big := r.Bytes(j.size)
+		payload, ext := []byte("small payload"), []byte("ext")
+		if j.where == "payload" {
+			payload = big
+		} else {
+			ext = big
+		}
+		alg := int64(-7)
+		cls := fmt.Sprintf("%s/large-%s/size=%d/bodyw=%d", j.structure, j.where, j.size, j.width)
+		input := map[string]any{"cell": cls}
+		switch j.structure {
+		case "sign1":
+			l := gen.RandLayer(r, gen.LayerOpts{Alg: &alg, MaxProt: 3, MaxUnprot: 2, ScramblePct: 40})
+			l.ProtWidth = j.width
+			wm := &gen.WSign1{L: l, Payload: payload, Sig: mon.FixedSig, Tagged: true}
+			b := wm.Bytes()
+			var msg cose.Sign1Message
+			var err error
+			if guard(rec, "Sign1.UnmarshalCBOR", input, func() { err = msg.UnmarshalCBOR(b) }) || err != nil {
+				rec.Event("large:refused")
+				return
+			}
+			want := wm.TBS(ext, payload)
+			vspy := &mon.SpyVerifier{Alg: cose.Algorithm(alg)}
+			if guard(rec, "Sign1.Verify", input, func() { err = msg.Verify(ext, vspy) }) {
+				return
+			}
+			rec.Eval(1)
+			rec.Event("large-field-cases")
+			rec.Class(cls)
+			if vspy.Calls != 1 || !eqBytes(vspy.Last(), want) {
+				rec.Violate("tbs-mismatch", "large/"+cls, fmt.Sprintf("verifier (calls=%d) got %d bytes, reference %d bytes; first difference at %d", vspy.Calls, len(vspy.Last()), len(want), firstDiff(vspy.Last(), want)), input)
+				return
+			}
+			msg.Signature = nil
+			sspy := &mon.SpySigner{Alg: cose.Algorithm(alg)}
+			if guard(rec, "Sign1.Sign", input, func() { err = msg.Sign(gen.Entropy, ext, sspy) }) {
+				return
+			}
+			if sspy.Calls != 1 || !eqBytes(sspy.Last(), want) {
+				rec.Violate("tbs-mismatch", "large/sign/"+cls, fmt.Sprintf("signer (calls=%d, err=%v) got %d bytes, reference %d bytes; first difference at %d", sspy.Calls, err, len(sspy.Last()), len(want), firstDiff(sspy.Last(), want)), input)
+			}
+			// constructed message of the same content
+			cm := &cose.Sign1Message{Headers: cose.Headers{Protected: cose.ProtectedHeader{int64(1): cose.AlgorithmES256, int64(4): []byte("kid")}}, Payload: payload}
+			cspy := &mon.SpySigner{Alg: cose.AlgorithmES256}
+			if guard(rec, "Sign1.Sign(constructed)", input, func() { err = cm.Sign(gen.Entropy, ext, cspy) }) {
+				return
+			}
+			cwant := refcose.Sign1Structure([]byte{0xa2, 0x01, 0x26, 0x04, 0x43, 'k', 'i', 'd'}, ext, payload)
+			if cspy.Calls != 1 || !eqBytes(cspy.Last(), cwant) {
+				rec.Violate("tbs-mismatch", "large/constructed/"+cls, fmt.Sprintf("signer (calls=%d, err=%v) got %d bytes, reference %d bytes; first difference at %d", cspy.Calls, err, len(cspy.Last()), len(cwant), firstDiff(cspy.Last(), cwant)), input)
+			}
+		case "sign":
+			wm := &gen.WSign{L: gen.RandLayer(r, gen.LayerOpts{MaxProt: 3, MaxUnprot: 2, ScramblePct: 40}), Payload: payload}
+			wm.L.ProtWidth = j.width
+			for q := 0; q < 2; q++ {
+				a := int64(-7 - q)
+				sl := gen.RandLayer(r, gen.LayerOpts{Alg: &a, MaxProt: 2, MaxUnprot: 1, ScramblePct: 40})
+				sl.ProtWidth = gen.HeadWidths[(i+q+1)%5]
+				wm.Sigs = append(wm.Sigs, &gen.WSignature{L: sl, Sig: mon.FixedSig})
+			}
+			b := wm.Bytes()
+			var m cose.SignMessage
+			var err error
+			if guard(rec, "SignMessage.UnmarshalCBOR", input, func() { err = m.UnmarshalCBOR(b) }) || err != nil {
+				rec.Event("large:refused")
+				return
+			}
+			vspies := []*mon.SpyVerifier{{Alg: -7}, {Alg: -8}}
+			if guard(rec, "SignMessage.Verify", input, func() { err = m.Verify(ext, vspies[0], vspies[1]) }) {
+				return
+			}
+			rec.Eval(1)
+			rec.Event("large-field-cases")
+			rec.Class(cls)
+			for q := 0; q < 2; q++ {
+				want := wm.TBS(q, ext, payload)
+				if vspies[q].Calls != 1 || !eqBytes(vspies[q].Last(), want) {
+					rec.Violate("tbs-mismatch", "large/"+cls, fmt.Sprintf("verifier %d (calls=%d, err=%v) got %d bytes, reference %d bytes; first difference at %d", q, vspies[q].Calls, err, len(vspies[q].Last()), len(want), firstDiff(vspies[q].Last(), want)), input)
+					return
+				}
+			}
+			for _, sg := range m.Signatures {
+				sg.Signature = nil
+			}
+			sspies := []*mon.SpySigner{{Alg: -7}, {Alg: -8}}
+			if guard(rec, "SignMessage.Sign", input, func() { err = m.Sign(gen.Entropy, ext, sspies[0], sspies[1]) }) {
+				return
+			}
+			for q := 0; q < 2; q++ {
+				want := wm.TBS(q, ext, payload)
+				if sspies[q].Calls != 1 || !eqBytes(sspies[q].Last(), want) {
+					rec.Violate("tbs-mismatch", "large/sign/"+cls, fmt.Sprintf("signer %d (calls=%d, err=%v) got %d bytes, reference %d bytes; first difference at %d", q, sspies[q].Calls, err, len(sspies[q].Last()), len(want), firstDiff(sspies[q].Last(), want)), input)
+					return
+				}
+			}
+		}
+	})
+
+	rec.Require("large-field-cases", 60)
 	rec.Require("Sign1Message.Sign", 100)
 	rec.Require("Sign1Message.Verify", 100)
 	rec.Require("SignMessage.Verify", 50)
@@ -432,4 +560,18 @@ func boundaryClass(n int) string {
 		return fmt.Sprint(n)
 	}
 	return "other"
+}
+
+// firstDiff returns the index of the first differing byte (or the shorter length).
+func firstDiff(a, b []byte) int {
+	n := len(a)
+	if len(b) < n {
+		n = len(b)
+	}
+	for i := 0; i < n; i++ {
+		if a[i] != b[i] {
+			return i
+		}
+	}
+	return n
 }
